@@ -2,3 +2,6 @@
 import BA.Prelude
 import BA.Generated.Constants
 import BA.Model.Paych
+import BA.Model.Datacap
+import BA.Model.Verifreg
+import BA.Model.SectorExt
